@@ -488,6 +488,8 @@ def check_updates_reach(ctx, rep):
             c11.check_handlers(ctx, RuleProxy(rep, 'C05.H', 'handlers::'), kinds, cls)
         if cls.module.name == 'torchtree.core.parameter' and cls.has_base(PARAM_BASE):
             c11.check_setters(ctx, RuleProxy(rep, 'C05.H', 'setters::'), cls)       # an assignment to shape / invariant / mu always tells the listeners
+    # the samplers that move shape / invariant / mu: proposals and restorations tell the listeners (C11.W rules on the MCMC operators)
+    c11.check_inplace(ctx, RuleProxy(rep, 'C05.H', 'operators::'), rule='C11.W', only=lambda m, fn: m.name.startswith('torchtree.inference.mcmc'))
     if n < 6:
         rep.incomplete('C05.H', '*', '', f"only {n} site model / derived parameter classes found")
 
